@@ -33,6 +33,8 @@ def run(ctx, db, tier):
     worker(ctx, db)
     locks.check_guarded(ctx, db, 'C11.locks', {k: v for k, v in GUARDED.items() if k.startswith('cocls::thread_pool::')}, [TP], per_instance=False, floor=10)
     await_resume(ctx, db)
+    cancel_keeps_marker(ctx, db)
+    stop_visits_all(ctx, db)
     run_resolves_once(ctx, db)
     run_async_owned(ctx, db)
 
@@ -164,6 +166,46 @@ def _guard_class(db, site, cap):
     return 'pointer guarded by the task class itself: its destructor resumes the waiter while armed, a move disarms the source'
 
 
+def _lamdefs(db, f):
+    """the lambda definitions visible from f: its own and those of the functions it is a closure of (the enqueuing code may itself be a closure of
+    the function that defines the deleter: a helper lambda extracted from a loop body)"""
+    lamdefs = {x['fn_key']: x for x in f.events() if x.k == 'lambda'}
+    g_ = f
+    for _ in range(3):
+        g_ = db.get(g_.get('parent_key')) if g_ is not None and g_.get('lambda') and g_.get('parent_key') else None
+        if g_ is None:
+            break
+        for x in g_.events():
+            if x.k == 'lambda':
+                lamdefs.setdefault(x['fn_key'], x)
+    return lamdefs
+
+
+def _deleter_of(db, f, c, lamdefs):
+    """the body of the deleter of a unique_ptr capture c of a closure created in f: a lambda defined in the same function and named in the type,
+    or the call operator of a named deleter class"""
+    t = (c.get('type') or '') + ' | ' + (c.get('canon_type') or '')
+    dl = None
+    for k, x in lamdefs.items():
+        m = re.search(r':(\d+):\d+$', k)
+        if m and re.search(r'lambda at [^)]*:%s:' % m.group(1), t):
+            dl = db.get(k)
+    if dl is None:
+        for k, x in lamdefs.items():
+            if (x.get('use') or '').startswith('init:') and re.search(r'decltype\(%s\)' % re.escape((x.get('use') or '')[5:]), t):
+                dl = db.get(k)
+    if dl is None:
+        # a named deleter class: unique_ptr<X, cocls::...::deleter>
+        m2 = re.search(r'unique_ptr<[^,]+,\s*(?:struct |class )?([\w:]+(?:<[^<>]*>)?(?:::\w+)*)\s*>', c.get('canon_type') or c.get('type') or '')
+        if m2 and 'lambda' not in m2.group(1):
+            dfs = db.fns(norm(m2.group(1)) + '::operator()')
+            if not dfs and '::' not in m2.group(1):
+                # a class local to the enqueuing function: its members are named <function>(<params>)::<class>::operator()
+                dfs = [g for g in db.all_instances() if g['nname'].startswith(f['nname'] + '(') and g['nname'].endswith(')::' + m2.group(1) + '::operator()')]
+            dl = dfs[0] if dfs else None
+    return dl
+
+
 def closures(ctx, db, rid_='C11.closure-owns-waiter', rid2_='C11.run-once'):
     rid = ctx.rule(rid_, 'WHO/TYPE', 'every closure handed to thread_pool::enqueue / run_detached: each capture whose type carries a waiter is an owning type whose destructor '
                    'releases it: promise, async, suspend_point, or unique_ptr whose deleter reaches coro_queue::resume / awaiter::resume. A trivially destructible capture of a '
@@ -199,25 +241,7 @@ def closures(ctx, db, rid_='C11.closure-owns-waiter', rid2_='C11.run-once'):
                 owning = 'raw ' + _guard_class(db, e, c)
                 guarded = c
             elif 'unique_ptr' in t and not c.get('trivial_dtor'):
-                # find the deleter lambda: defined in the same function, named in the type
-                dl = None
-                for k, x in lamdefs.items():
-                    m = re.search(r':(\d+):\d+$', k)
-                    if m and re.search(r'lambda at [^)]*:%s:' % m.group(1), t):
-                        dl = db.get(k)
-                if dl is None:
-                    for k, x in lamdefs.items():
-                        if (x.get('use') or '').startswith('init:') and re.search(r'decltype\(%s\)' % re.escape((x.get('use') or '')[5:]), t):
-                            dl = db.get(k)
-                if dl is None:
-                    # a named deleter class: unique_ptr<X, cocls::...::deleter>
-                    m2 = re.search(r'unique_ptr<[^,]+,\s*(?:struct |class )?([\w:]+(?:<[^<>]*>)?(?:::\w+)*)\s*>', c.get('canon_type') or c.get('type') or '')
-                    if m2 and 'lambda' not in m2.group(1):
-                        dfs = db.fns(norm(m2.group(1)) + '::operator()')
-                        if not dfs and '::' not in m2.group(1):
-                            # a class local to the enqueuing function: its members are named <function>(<params>)::<class>::operator()
-                            dfs = [g for g in db.all_instances() if g['nname'].startswith(f['nname'] + '(') and g['nname'].endswith(')::' + m2.group(1) + '::operator()')]
-                        dl = dfs[0] if dfs else None
+                dl = _deleter_of(db, f, c, lamdefs)
                 if dl is not None:
                     fns, ext, _ = reach(db, [dl])
                     if any(g['nname'] in ('cocls::coro_queue::resume', 'cocls::awaiter::resume') for g in fns):
@@ -613,3 +637,170 @@ def always_suspends(ctx, db):
                 bad = bad or ('await_suspend answers %s: when it says "not suspended" the coroutine continues while the queue item built for it resumes it again' % (ret_expr(tr) or ret_const(tr)), tr)
         ctx.ob(rid, f, f['key'], bad is None and bool(trs), 'co_await pool always suspends; the queue item continues the coroutine' + ('' if not bad else ' -- ' + bad[0]), desc=bad[0] if bad else None,
                trace=fmt_trace(bad[1]) if bad else None)
+
+
+def _modifies(it, fields):
+    """does trace item `it` change the value of one of the members `fields` (qualified names): assignment, assignment operator, or the object handed
+    to a standard function that replaces it (exchange / swap), reset()/clear() on it"""
+    if it.k == 'write' and field_of(it) in fields:
+        return True
+    if it.k == 'call':
+        c = norm(it.get('callee') or '')
+        if field_of(it) in fields and (c.endswith('operator=') or c.split('::')[-1] in ('reset', 'clear', 'swap')):
+            return True
+        if c in ('std::exchange', 'std::swap', 'std::__exchange') and any(norm(a.get('field') or '') in fields for a in (it.get('args') or [])[:2 if c == 'std::swap' else 1]):
+            return True
+    return False
+
+
+def cancel_keeps_marker(ctx, db):
+    """co_await pool: whether the submission ran on a worker or was cancelled is told to await_resume by the state of members of the awaiter (the
+    handle still being set).  The cancellation code - the deleter of the guard held by the queue item, or the destructor of a task class that guards
+    the awaiter itself - resumes the coroutine and therefore must leave every member that await_resume decides on untouched: a cancel path that
+    changes the marker (before the resume: the cancellation is reported as success; after it: the awaiter may be gone) is not observable"""
+    rid = ctx.rule('C11.cancel-keeps-marker', 'PATHS', 'thread_pool::co_awaiter: the members of the awaiter that await_resume branches on to tell "cancelled" from "ran on a worker" are modified '
+                   'on no path of the cancellation code of the queue item (the deleter of its guard / the destructor of a guarding task class, helpers expanded): only the closure body that runs '
+                   'on a worker clears the marker', floor=1)
+    H = htracer(db)
+    CLS = 'cocls::thread_pool::co_awaiter::'
+    # the marker: members of the awaiter whose value decides a branch of await_resume
+    marker = set()
+    for f in db.need('cocls::thread_pool::co_awaiter::await_resume')[:1]:
+        for tr in H.traces(f):
+            byid = {}
+            for it in tr:
+                if it.get('id') is not None:
+                    byid[(it.get('fn'), it.get('id'))] = it
+                if it.k == 'branch':
+                    ce = byid.get((it.get('fn'), it.get('cond_ev'))) or byid.get((None, it.get('cond_ev')))
+                    srcs = [ce] if ce is not None else []
+                    if ce is not None:
+                        srcs += [{'field': a.get('field')} for a in ce.get('args') or []]
+                    for x in srcs:
+                        fl = norm(x.get('lfield') or x.get('field') or '')
+                        if fl.startswith(CLS):
+                            marker.add(fl)
+                    for fl in re.findall(r'this->(\w+)', (it.get('path') or '') + ' ' + (it.get('opath') or '')):
+                        marker.add(CLS + fl)
+    known = {norm(fl.get('qname') or '') for c in db.classes.values() if norm(c['name']) == CLS[:-2] for fl in c.get('fields', [])} - {''}
+    if known:
+        marker = {m for m in marker if m in known} or marker
+    if not marker:
+        raise Broken('thread_pool::co_awaiter::await_resume branches on no member of the awaiter')
+    # the cancellation code of the queue items built by await_suspend (or by helpers of it)
+    bodies = {h['key'] for g in db.need('cocls::thread_pool::co_awaiter::await_suspend')[:1] for h in helper_bodies(db, g)}
+    cancel = []
+    for f, e in _enqueued_lambdas(db):
+        top = f
+        for _ in range(3):
+            if top is not None and top.get('lambda') and top.get('parent_key') and top['key'] not in bodies:
+                top = db.get(top['parent_key'])
+        if top is None or top['key'] not in bodies:
+            continue
+        lamdefs = _lamdefs(db, f)
+        for c in e.get('captures', []):
+            t = (c.get('type') or '') + ' | ' + (c.get('canon_type') or '')
+            if 'co_awaiter' not in t:
+                continue
+            if e.get('functor') and _guard_class(db, e, c):
+                cn = e['functor']
+                cancel += db.fns(cn + '::~' + cn.split('::')[-1])[:1]
+            elif 'unique_ptr' in t:
+                dl = _deleter_of(db, f, c, lamdefs)
+                if dl is not None:
+                    cancel.append(dl)
+    if not cancel:
+        raise Broken('the cancellation code (guard deleter) of the queue item of thread_pool::co_awaiter::await_suspend was not found')
+    seen = set()
+    for dl in cancel:
+        if dl['key'] in seen:
+            continue
+        seen.add(dl['key'])
+        trs = [t for t in H.traces(dl) if live(t)]
+        ctx.paths(rid, len(trs))
+        bad = None
+        for tr in trs:
+            for it in tr:
+                if _modifies(it, marker):
+                    bad = bad or (it, tr)
+        ctx.ob(rid, dl, dl['key'], bad is None and bool(trs), 'the cancellation code leaves %s as it is: await_resume sees the submission as cancelled' % ', '.join(sorted(m.split('::')[-1] for m in marker)) +
+               ('' if not bad else ' -- the marker is modified at %s' % relloc(bad[0].get('loc') or '')),
+               desc='the cancel path of co_await pool modifies the member await_resume decides on (cancellation reported as success)', trace=fmt_trace(bad[1]) if bad else None)
+
+
+def _on_cycle(g, b):
+    """can block b of function g reach itself?"""
+    blocks = g['_blocks']
+    seen = set(); work = [s for s in blocks[b]['succ'] if s >= 0]
+    while work:
+        x = work.pop()
+        if x == b:
+            return True
+        if x in seen:
+            continue
+        seen.add(x)
+        work += [s for s in blocks[x]['succ'] if s >= 0]
+    return False
+
+
+def _reaches(g, a, b):
+    blocks = g['_blocks']
+    seen = set(); work = [a]
+    while work:
+        x = work.pop()
+        if x == b:
+            return True
+        if x in seen or x < 0:
+            continue
+        seen.add(x)
+        work += [s for s in blocks[x]['succ'] if s >= 0]
+    return False
+
+
+def stop_visits_all(ctx, db):
+    """stop() owns the swapped-out list of threads; a std::thread destroyed while joinable terminates the process, so the iteration that joins /
+    detaches must run to the end of the list: on every complete path the last join / detach is followed by a test of the iteration (a branch of a
+    loop, other than the test that told the caller from the other threads) answered "leave the loop".  Leaving on the edge of the caller-identity
+    test - having found the own thread - abandons the threads stored behind it"""
+    rid = ctx.rule('C11.stop-visits-all', 'PATHS', 'thread_pool::stop (helpers expanded): on every path that returns, after the last std::thread::join / detach the loop over the swapped-out '
+                   'threads is left on an exit edge of a loop test that was evaluated after that thread was dealt with and that is not the caller-identity test deciding between join and detach '
+                   '(no early exit: every thread of the list is joined or detached before the list is destroyed)', floor=1)
+    for f, trs in traces_of(db, 'cocls::thread_pool::stop', depth=0, per_instance=False, maxvisit=2):
+        trs = [t for t in trs if live(t) and not any(it.k == 'abort' for it in t)]
+        ctx.paths(rid, len(trs))
+        bad = None; nloop = 0
+        for tr in trs:
+            jd = [i for i, it in enumerate(tr) if it.k == 'call' and norm(it.get('callee')) in ('std::thread::join', 'std::thread::detach')]
+            if not jd:
+                continue
+            nloop += 1
+            last = jd[-1]
+            # the caller-identity test that guards this join / detach
+            ident = None
+            for b in reversed(tr[:last]):
+                if b.k == 'branch' and ('get_id' in (b.path or '') or 'operator==' in (b.path or '')):
+                    ident = b
+                    break
+            left = False
+            for b in tr[last + 1:]:
+                if b.k != 'branch' or b.get('block') is None:
+                    continue
+                g = db.get(b.get('fn')) if b.get('fn') else f
+                if g is None or not _on_cycle(g, b['block']):
+                    continue
+                if ident is not None and b.get('fn') == ident.get('fn') and b.get('block') == ident.get('block'):
+                    continue
+                succ = g['_blocks'][b['block']]['succ']
+                if len(succ) != 2:
+                    continue
+                taken = succ[0 if b.get('oval') else 1]
+                if taken < 0 or not _reaches(g, taken, b['block']):
+                    left = True
+                    break
+            if not left:
+                bad = bad or ('after a thread was %s the function returns without the iteration over the thread list having tested for its end: the threads behind it stay joinable '
+                              '(std::terminate when the list is destroyed)' % ('detached' if norm(tr[last].get('callee')).endswith('detach') else 'joined'), tr)
+        if nloop == 0:
+            raise Broken('thread_pool::stop: no returning path joins or detaches a thread')
+        ctx.ob(rid, f, f['key'], bad is None, 'the iteration over the swapped-out threads ends only at the end of the list' + ('' if not bad else ' -- ' + bad[0]),
+               desc=(bad[0][:110] if bad else None), trace=fmt_trace(bad[1]) if bad else None)
